@@ -19,10 +19,11 @@ pub struct X {
     improved: u64,   // sub-hands strictly weaker than the larger hand (the extra card helped)
     unchanged: u64,  // sub-hands with the same value
     cat_improved: u64,
+    other_entries: u64, // hands also taken through the validated / HandRank / value-and-hand entry points
 }
 
 fn mk() -> X {
-    X { unique_min: 0, tied_min: 0, improved: 0, unchanged: 0, cat_improved: 0 }
+    X { unique_min: 0, tied_min: 0, improved: 0, unchanged: 0, cat_improved: 0, other_entries: 0 }
 }
 
 fn cat_of_value(v: u16) -> u8 {
@@ -96,6 +97,48 @@ fn check7(st: &mut St<X>, c: &[u8; 7]) {
     } else {
         st.x.tied_min += 1;
     }
+    // the same relation through the other value entry points (seven distinct real cards are a valid hand, so
+    // the validated value is *the* value): the validated seven-card value against the plain six-card minimum
+    // on every hand; on a fixed quarter of the hands also validated against validated, and the HandRank and
+    // value-and-hand entry points
+    let h7 = Seven::from(w);
+    let v7v = h7.hand_rank_value_validated();
+    st.rep.evaluations += 1;
+    if v7v != minv {
+        st.rep.violation(
+            "seven-card value == smallest of its seven six-card values",
+            "Seven::hand_rank_value_validated vs Six::hand_rank_value",
+            Input::Idx(c.to_vec()),
+            format!("min v6 = {}", minv),
+            format!("validated v7 = {}", v7v),
+        );
+    }
+    if drive::hand_code(c) % 4 == 0 {
+        let mut minvv = u16::MAX;
+        for drop in 0..7 {
+            let mut s = [0u32; 6];
+            let mut k = 0;
+            for i in 0..7 {
+                if i != drop {
+                    s[k] = w[i];
+                    k += 1;
+                }
+            }
+            minvv = minvv.min(Six::from(s).hand_rank_value_validated());
+        }
+        st.rep.evaluations += 10;
+        st.x.other_entries += 1;
+        for (entry, v) in [
+            ("Seven::hand_rank_value_validated vs Six::hand_rank_value_validated", v7v),
+            ("Seven::hand_rank().value vs Six::hand_rank_value_validated", h7.hand_rank().value),
+            ("Seven::hand_rank_validated().value vs Six::hand_rank_value_validated", h7.hand_rank_validated().value),
+            ("Seven::hand_rank_value_and_hand().0 vs Six::hand_rank_value_validated", h7.hand_rank_value_and_hand().0),
+        ] {
+            if v != minvv {
+                st.rep.violation("seven-card value == smallest of its seven six-card values", entry, Input::Idx(c.to_vec()), format!("min validated v6 = {}", minvv), format!("v7 = {}", v));
+            }
+        }
+    }
 }
 
 #[inline]
@@ -153,6 +196,45 @@ fn check6(st: &mut St<X>, c: &[u8; 6]) {
         st.x.unique_min += 1;
     } else {
         st.x.tied_min += 1;
+    }
+    // the other value entry points, as in check7
+    let h6 = Six::from(w);
+    let v6v = h6.hand_rank_value_validated();
+    st.rep.evaluations += 1;
+    if v6v != minv {
+        st.rep.violation(
+            "six-card value == smallest of its six five-card values",
+            "Six::hand_rank_value_validated vs Five::hand_rank_value",
+            Input::Idx(c.to_vec()),
+            format!("min v5 = {}", minv),
+            format!("validated v6 = {}", v6v),
+        );
+    }
+    if drive::hand_code(c) % 4 == 0 {
+        let mut minvv = u16::MAX;
+        for drop in 0..6 {
+            let mut s = [0u32; 5];
+            let mut k = 0;
+            for i in 0..6 {
+                if i != drop {
+                    s[k] = w[i];
+                    k += 1;
+                }
+            }
+            minvv = minvv.min(Five::from(s).hand_rank_value_validated());
+        }
+        st.rep.evaluations += 9;
+        st.x.other_entries += 1;
+        for (entry, v) in [
+            ("Six::hand_rank_value_validated vs Five::hand_rank_value_validated", v6v),
+            ("Six::hand_rank().value vs Five::hand_rank_value_validated", h6.hand_rank().value),
+            ("Six::hand_rank_validated().value vs Five::hand_rank_value_validated", h6.hand_rank_validated().value),
+            ("Six::hand_rank_value_and_hand().0 vs Five::hand_rank_value_validated", h6.hand_rank_value_and_hand().0),
+        ] {
+            if v != minvv {
+                st.rep.violation("six-card value == smallest of its six five-card values", entry, Input::Idx(c.to_vec()), format!("min validated v5 = {}", minvv), format!("v6 = {}", v));
+            }
+        }
     }
 }
 
@@ -286,6 +368,7 @@ pub fn run(ctx: &Ctx) -> Rep {
         acc.improved += x.improved;
         acc.unchanged += x.unchanged;
         acc.cat_improved += x.cat_improved;
+        acc.other_entries += x.other_entries;
     }
     rep.add("six_card_subsets", n6);
     rep.add("seven_card_subsets", n7);
@@ -294,11 +377,13 @@ pub fn run(ctx: &Ctx) -> Rep {
     rep.add("sub_hands_strictly_weaker(the extra card improved the value)", acc.improved);
     rep.add("sub_hands_equal(the extra card did not matter)", acc.unchanged);
     rep.add("sub_hands_in_a_weaker_category", acc.cat_improved);
+    rep.add("hands_also_through_validated_handrank_and_value_and_hand_entries", acc.other_entries);
     if !ctx.smoke() {
         rep.floor("six_card_subsets", n6, if leg_div == 1 { 20_358_520 } else { 20_358_520 / leg_div / 2 });
         rep.floor("seven_card_subsets", n7, if rate7 == 1 { 133_784_560 } else { 133_784_560 / rate7 / 2 });
         rep.floor("hands with a unique minimising sub-hand", acc.unique_min, 1000);
         rep.floor("sub-hands strictly weaker", acc.improved, 1000);
+        rep.floor("hands through the other value entry points", acc.other_entries, 1000);
         rep.exhaustive = Some(rate7 == 1);
     }
     rep.rule = format!(
